@@ -77,4 +77,17 @@ Section Ms.
     - destruct (win_range IB ws marge D V (r - (ws - 1) / 2) (c - (ws - 1) / 2)); reflexivity.
     - reflexivity.
   Qed.
+
+  Corollary ms_loop_is_skeleton_at : forall sk sy sx env0 r c,
+    ms_skeleton_ok sk = true -> 1 <= ws -> ws <= rows D -> ws <= cols D ->
+    looped IB ws marge D V umin umax (sk_B sk) r c
+    = (snd (exec ms_kernel ws (rows D - ws + 1) (cols D - ws + 1) (sk_target 0 sk) sk sy sx
+                 (env0, fun _ _ => fst (fallback umin umax))) r c,
+       snd (exec ms_kernel ws (rows D - ws + 1) (cols D - ws + 1) (sk_target 1 sk) sk sy sx
+                 (env0, fun _ _ => snd (fallback umin umax))) r c).
+  Proof.
+    intros sk sy sx env0 r c Hok Hws Hr Hc.
+    destruct (ms_skeleton_ok_parts sk Hok) as (_ & _ & _ & w1 & w2 & Hw & _).
+    unfold sk_target. rewrite Hw. cbn [nth_error]. apply ms_loop_is_skeleton; assumption.
+  Qed.
 End Ms.
